@@ -4,7 +4,7 @@ pub use super::{Reflink, Backup};
 use super::libfs::{
     allocate_file, copy_file_bytes, copy_owner, copy_permissions, copy_timestamps, is_same_file, next_sparse_segments,
     probably_sparse, reflink, sync, FileType, copy_node, copy_file_offset, map_extents, merge_extents, Extent,
-    ext_wf, ext_sorted, ends_le, lemma_mirrors_wf, kext_wf, mirrors, inx, covered,
+    ext_wf, ext_sorted, ends_le, lemma_mirrors_wf, kext_wf, mirrors, inx, covered, in_gap, merge_gaps_ok,
 };
 
 // ---------------------------------------------------------------- anyhow
